@@ -206,7 +206,10 @@ def run_property(prop: str, tier: str, seed: int, only: str = None, jobs: int = 
     wall = time.time() - t0
     ev = build_evidence(mod, prop, tier, seed, obligations, real_violations, knowns, undecided,
                         guard_failed, n_replayed, wall)
-    dump(ev, os.path.join(ROOT, "evidence", f"{prop}.json"))
+    # runs against a scratch copy of the repository (mutation self-tests: VERIF_REPO set) must not overwrite the
+    # committed evidence, which describes /repo itself
+    ev_dir = "evidence" if os.path.realpath(REPO) == os.path.realpath("/repo") else ".scratch_evidence"
+    dump(ev, os.path.join(ROOT, ev_dir, f"{prop}.json"))
     c = ev["coverage"]
     print(f"{prop} [{tier}] obligations={c['obligations']} discharged={c['discharged']} "
           f"(deductive {c['deductive_obligations']}/{c['deductive_discharged']}, "
